@@ -2,6 +2,8 @@ import HmfVerif.Real.Tactics
 import HmfVerif.Gen.ExprHalofit
 import HmfVerif.Gen.ExprFlow
 import HmfVerif.Spec.Wiring
+import HmfVerif.Gen.Guards
+import HmfVerif.Spec.Guards
 /-!
 # C18 — HALOFIT leaves large scales untouched and is self-consistent
 `Gen.Halofit.halofit_pnl` is the regenerated closed form of the non-linear spectrum on the modelled
@@ -79,5 +81,8 @@ theorem halofit_takahashi_nonneg (opq : String → ℝ → ℝ) (ρ : String →
 /-- C18: `nonlinear_delta_k` is HALOFIT applied to the object's own (k, Δ²_lin, z, cosmology, switch) — every argument wired,
     none left at the callee's default -/
 theorem halofit_call_wiring : Gen.Flow.wiring.lookup "Transfer.nonlinear_delta_k" = some Spec.Wiring.halofit := by decide
+
+/-- HALOFIT's low-k cut is `k > 0.005` and the Ω_m(z) switch `|1 − Ω_m(z)| > 0.01`; no new special case -/
+theorem guards_halofit : Gen.Guards.halofit = Spec.Guards.halofit := by decide
 
 end Hmf.C18
